@@ -284,6 +284,7 @@ CHECKS = {
             mc("texts-logic", "MC_Text.tla", dict(quick="MC_Text_logic3.cfg", thorough="MC_Text_logic4.cfg"), workers=6),
             mc("texts-comparisons", "MC_Text.tla", dict(quick="MC_Text_cmp3.cfg", thorough="MC_Text_cmp4.cfg"), workers=6),
             mc("texts-index-call", "MC_Text.tla", dict(quick="MC_Text_idx3.cfg", thorough="MC_Text_idx4.cfg"), workers=6),
+            mc("texts-value-expressions", "MC_Text.tla", dict(quick="MC_Text_value3.cfg", thorough="MC_Text_value4.cfg"), workers=6),
             trace("inputs", "Trace_Total", ["gen-total", "--stress", "--big", "100000"], 3000, 200000, shards=SH),
             lang("texts", "text", 2500, 100000, ["--nctx", "3", "--depth", "3", "--repct", "15", "--mutate", "30"], shards=SH, seed_off=7),
             lang("token-soups", "soup", 6000, 300000, ["--nctx", "2"], shards=SH),
@@ -367,11 +368,11 @@ CHECKS = {
         exhaustive=True,
         assumptions=["memory safety of the SIMD search is not observed, only answers"],
         stages=[
-            mc("small-simd", "MC_C10.tla", "MC_C10_small.cfg", replay_cmd="replay-contains"),
-            mc("small-scalar", "MC_C10.tla", "MC_C10_small.cfg", replay_cmd="replay-contains", replay_env={"WIREFILTER_USE_AVX2": "0"}),
-            mc("struct-simd", "MC_C10.tla", dict(quick="MC_C10_struct_quick.cfg", thorough="MC_C10_struct_thorough.cfg"), replay_cmd="replay-contains"),
-            mc("struct-scalar", "MC_C10.tla", dict(quick="MC_C10_struct_quick.cfg", thorough="MC_C10_struct_thorough.cfg"), replay_cmd="replay-contains", replay_env={"WIREFILTER_USE_AVX2": "0"}),
-            trace("random-simd", "Trace_Contains", ["gen-contains"], 3000, 150000, shards=SH),
+            mc("small-simd", "MC_C10.tla", "MC_C10_small.cfg", replay_cmd="replay-contains", nondeterministic=True),
+            mc("small-scalar", "MC_C10.tla", "MC_C10_small.cfg", replay_cmd="replay-contains", replay_env={"WIREFILTER_USE_AVX2": "0"}, nondeterministic=True),
+            mc("struct-simd", "MC_C10.tla", dict(quick="MC_C10_struct_quick.cfg", thorough="MC_C10_struct_thorough.cfg"), replay_cmd="replay-contains", nondeterministic=True),
+            mc("struct-scalar", "MC_C10.tla", dict(quick="MC_C10_struct_quick.cfg", thorough="MC_C10_struct_thorough.cfg"), replay_cmd="replay-contains", replay_env={"WIREFILTER_USE_AVX2": "0"}, nondeterministic=True),
+            trace("random-simd", "Trace_Contains", ["gen-contains"], 3000, 150000, shards=SH, nondeterministic=True),
             trace("random-scalar", "Trace_Contains", ["gen-contains"], 1500, 60000, shards=SH, gen_env={"WIREFILTER_USE_AVX2": "0"}, seed_off=5),
         ],
     ),
